@@ -144,6 +144,8 @@ def run_case(case, acc):
     agg.fresh_locks()
     agg.drop_exit_handlers()
     acc.step(2 + 2 * len(seq))
+    # NOTE: module-level state of the library is deliberately NOT reset between sessions here: configurations follow each other
+    # in one process, as in a script that evaluates several set-ups (a cache keyed too coarsely shows up that way)
     try:
         ev = make_evaluator("UNMATCHED", matcher=["thr", "IOU", 0.5, False], instance_metrics=IM_SUBSETS[im], global_metrics=GM_SUBSETS[gm], handler=handler_cfg(H_NAMES[hn]), groups=make_groups(GROUPSETS[gs]))
         if case["cfg"] % 3 == 0:
